@@ -82,7 +82,7 @@ impl<F: Float, L> ParamGuard for GaussianNbParams<F, L> {
     type Error = NaiveBayesError;
 
     fn check_ref(&self) -> Result<&Self::Checked, Self::Error> {
-        if self.0.var_smoothing.is_negative() {
+        if self.0.var_smoothing < F::zero() {
             Err(NaiveBayesError::InvalidSmoothing(
                 self.0.var_smoothing.to_f64().unwrap(),
             ))
@@ -174,7 +174,7 @@ impl<F: Float, L> ParamGuard for MultinomialNbParams<F, L> {
     type Error = NaiveBayesError;
 
     fn check_ref(&self) -> Result<&Self::Checked, Self::Error> {
-        if self.0.alpha.is_negative() {
+        if self.0.alpha < F::zero() {
             Err(NaiveBayesError::InvalidSmoothing(
                 self.0.alpha.to_f64().unwrap(),
             ))
